@@ -33,6 +33,9 @@ func initNets() {
 		// networks that SHARE an address prefix / WIF byte with an already registered one but have their own HD version bytes
 		mk("signet-like", 0x6f, 0xef, [4]byte{0x04, 0x5f, 0x18, 0xbc}, [4]byte{0x04, 0x5f, 0x1c, 0xf6}),
 		mk("hd-only", 0x00, 0x80, [4]byte{0x0a, 0x0b, 0x0c, 0x0d}, [4]byte{0x1a, 0x1b, 0x1c, 0x1d}),
+		// zero is a value like any other: a public version of four zero bytes, a private version of four zero bytes, WIF byte 0
+		mk("zero-pub", 0x21, 0x00, [4]byte{0x0b, 0x0c, 0x0d, 0x0e}, [4]byte{0, 0, 0, 0}),
+		mk("zero-priv", 0x22, 0xff, [4]byte{0, 0, 0, 0}, [4]byte{0x0c, 0x0d, 0x0e, 0x0f}),
 	}
 	// a first lookup and a first Neuter happen BEFORE the custom networks are registered: registration must work at any
 	// time, not only before the registry is first consulted
